@@ -166,6 +166,19 @@ func checkC15(c *Ctx) {
 				}
 			} else {
 				c.Count("update_succeeded", 1)
+				if !used && out != nil {
+					// the same request once more: the key is used now, whatever the value
+					snap := map[string]string{}
+					for k, v := range out {
+						snap[k] = v
+					}
+					again, err2 := cdi.UpdateAnnotations(out, plugin, id, devs)
+					c.Count("requests_repeated_on_the_updated_map", 1)
+					if err2 == nil || !reflect.DeepEqual(out, snap) || !reflect.DeepEqual(again, snap) {
+						cs.Violation("overwrite", map[string]string{"map": mshape, "what": "same-request-again"}, fmt.Sprintf("the same UpdateAnnotations request once more, on the map that now has key %q: err=%v, map %v (was %v)", key, err2, out, snap), wit())
+						continue
+					}
+				}
 				switch {
 				case used:
 					cs.Violation("overwrite", map[string]string{"map": mshape}, fmt.Sprintf("UpdateAnnotations succeeded although key %q was already used (old value %q, new %q)", key, before[key], out[key]), wit())
